@@ -8,13 +8,13 @@ import (
 	"strings"
 )
 
-func (g *vfGen) runMore16(slice string) bool { return false }
+func (g *vfGen) runMore16(slice string) bool { return g.runMore17(slice) }
 
 // resext hex lim : calling Extend on a detection result (and on its ancestors) registers nothing:
 // the tree is unchanged and the same input is classified as before
 func vfExecMore16(f []string, op string) (string, bool) {
 	switch f[0] {
-	case "resext":
+	case "resext", "resext1":
 		if vfBuiltin == nil {
 			vfBuiltin = vfSnapshot()
 		}
@@ -31,6 +31,9 @@ func vfExecMore16(f []string, op string) (string, bool) {
 		for p := d; p != nil; p = p.Parent() {
 			p.Extend(always, fmt.Sprintf("application/x-verif-foreign-%d", k), ".vf")
 			k++
+			if f[0] == "resext1" { // the returned value only, not its ancestors
+				break
+			}
 		}
 		after := vfDumpTree()
 		d2 := Detect(data)
@@ -84,7 +87,7 @@ func vfExecMore16(f []string, op string) (string, bool) {
 		}
 		return fmt.Sprintf("%s => %s %s %s", op, vb.String(), lg, res), true
 	}
-	return "", false
+	return vfExecMore17(f, op)
 }
 
 func (g *vfGen) genTrace() {
@@ -107,8 +110,11 @@ func (g *vfGen) genResExt() {
 			c = c[:4096]
 		}
 		g.emit(vfOp("resext", c, []uint32{0, 3072}[g.intn(2)]))
+		g.emit(vfOp("resext1", c, []uint32{0, 3072}[g.intn(2)]))
 	}
-	for _, s := range []string{"%PDF-1.7", "plain text", "{\"a\":1}", "<html><body>", "PK\x03\x04", "", "\x00\x01"} {
+	for _, s := range []string{"%PDF-1.7", "plain text", "{\"a\":1}", "<html><body>", "PK\x03\x04", "", "\x00\x01",
+		"<html><head><meta charset=koi8-r></head>", "<?xml version=\"1.0\" encoding=\"iso-8859-2\"?><a/>", "caf\xe9 au lait", "<!DOCTYPE html><meta charset=\"x y\">"} {
 		g.emit(vfOp("resext", []byte(s), 0))
+		g.emit(vfOp("resext1", []byte(s), 0))
 	}
 }
